@@ -56,6 +56,10 @@ fn check_lossless(c: &mut Case, m: u8, mname: &str, class: &str, d: &[u8]) {
         c.count("stored_raw", 1);
         return; // stored raw — nothing to invert
     }
+    // "when compression does not shrink the data it is stored raw": a form that differs from the input must be shorter
+    if out.len() >= len {
+        c.violate(format!("not-stored-raw-although-not-smaller|{mname}"), format!("compress(len {len}, {mname}, class {class}) returned a {}-byte form that is not the raw input", out.len()), json!({"class": class, "len": len, "out": out.len()}));
+    }
     if out.is_empty() || out[0] != m {
         c.violate(format!("method-byte-missing|{mname}"), format!("compress output differs from input but does not start with the method byte {m:#x} (len {len}, class {class})"), json!({"head": out.first()}));
         return;
@@ -207,6 +211,24 @@ fn main() {
             c.count("triples", 1);
             check_lossless(c, m, mname, class, &d);
         });
+    }
+    // break-even inputs: incompressible head + compressible tail grown until compression first pays off
+    for &(m, mname) in LOSSLESS {
+        for rep in 0..(if thorough { 40u64 } else { 6 }) {
+            let i = idx;
+            idx += 1;
+            if !run.want(i) {
+                continue;
+            }
+            let mut rng = run.rng(i, 2);
+            run.case(i, &format!("{mname}|break-even|rep{}", rep % 6), json!({"selector": mname, "what": "lengths around the point where 1 + compressed == input length"}), |c| {
+                for d in vh_mpq::cfggen::break_even_contents(&mut rng, m) {
+                    c.count("triples", 1);
+                    c.count("break_even_inputs", 1);
+                    check_lossless(c, m, mname, "break-even", &d);
+                }
+            });
+        }
     }
     // selectors whose compressor is expected to refuse
     for &(m, mname) in COMPRESS_ONLY_ERR {
